@@ -137,6 +137,85 @@ func (sc *scenario) steadyCheck() {
 	}
 }
 
+// freeCheck (op `freecheck`, free-running cases only: single-byte input, so no escape sequence can be cut by the
+// escape timer): the consumer polls again and nothing was shut down, so every injected input event must arrive —
+// the check waits for the expected number of events (at most the hang deadline) and then compares the sequences:
+// exactly once, in order.  Posted events that were accepted must arrive too.
+func (sc *scenario) freeCheck() {
+	if !sc.c.free.Load() || sc.suspended || sc.readErrInjected || sc.paused.Load() || sc.stopAfter >= 0 {
+		// (stopAfter >= 0: the consumer is still going to stop polling — `unpause` was not executed, e.g. in a shrunk line)
+		sc.tag("freecheck-skipped")
+		return
+	}
+	sc.tag("free-check")
+	want := len(sc.exp)
+	accepted := func() int {
+		n := 0
+		for p := range sc.postRes {
+			for i, ok := range sc.postRes[p] {
+				if ok && !sc.postTime[p][i].IsZero() {
+					n++
+				}
+			}
+		}
+		return n
+	}
+	count := func() (int, int) {
+		sc.gmu.Lock()
+		defer sc.gmu.Unlock()
+		k, pi := 0, 0
+		for _, d := range sc.got {
+			if isInput(d.desc) {
+				k++
+			} else if d.desc[0] == 'I' {
+				pi++
+			}
+		}
+		return k, pi
+	}
+	dl := time.Now().Add(time.Duration(sc.hangMs) * time.Millisecond)
+	for time.Now().Before(dl) {
+		if k, pi := count(); k >= want && pi >= accepted() && sc.feedDone.Load() {
+			break
+		}
+		time.Sleep(time.Millisecond)
+	}
+	time.Sleep(5 * time.Millisecond) // anything that would arrive twice gets its chance
+	sc.gmu.Lock()
+	var got []string
+	have := map[string]bool{}
+	for _, d := range sc.got {
+		if isInput(d.desc) {
+			got = append(got, d.desc)
+		} else if d.desc[0] == 'I' {
+			have[d.desc] = true
+		}
+	}
+	sc.gmu.Unlock()
+	if strings.Join(got, ",") != strings.Join(sc.exp, ",") {
+		m := match(got, sc.exp)
+		sub := true
+		for _, k := range m {
+			if k < 0 {
+				sub = false
+			}
+		}
+		switch {
+		case sub && len(got) < len(sc.exp):
+			sc.find("input-event-lost", "free running: %d of %d input events were delivered within %d ms although the consumer polls and nothing was shut down; delivered: %s", len(got), len(sc.exp), sc.hangMs, clipList(got, 60))
+		default:
+			// duplicated / reordered / spurious: classified by finalOracles on the complete run
+		}
+	}
+	for p := range sc.postRes {
+		for i, ok := range sc.postRes[p] {
+			if ok && !sc.postTime[p][i].IsZero() && !have[fmt.Sprintf("I%d.%d", p, i)] {
+				sc.find("post-accepted-but-lost", "free running: PostEvent #%d of poster %d returned nil but the event was not delivered within %d ms although the consumer polls", i, p, sc.hangMs)
+			}
+		}
+	}
+}
+
 // resumeCheck (op `check2`): after Suspend + Resume the input injected after Resume must arrive, and a resize too
 func (sc *scenario) resumeCheck() {
 	if !sc.resumed || sc.paused.Load() || sc.c.free.Load() || sc.readErrInjected {
@@ -149,6 +228,22 @@ func (sc *scenario) resumeCheck() {
 	}
 	sc.tag("resume-check")
 	got, _ := sc.inputDelivered()
+	if sc.midInjected && len(sc.expMid) > 0 {
+		have := 0
+		for _, e := range sc.expMid {
+			if contains(got, e) {
+				have++
+			}
+		}
+		switch {
+		case have == len(sc.expMid):
+			sc.tag("input-while-suspended-delivered-after-resume")
+		case have == 0:
+			sc.tag("input-while-suspended-not-delivered")
+		default:
+			sc.tag("input-while-suspended-partly-delivered")
+		}
+	}
 	n := len(sc.exp2)
 	if n > 0 {
 		if len(got) < n || strings.Join(got[len(got)-n:], ",") != strings.Join(sc.exp2, ",") {
@@ -196,7 +291,8 @@ func (sc *scenario) resumeCheck() {
 // finalOracles: what holds in every run, whatever was shut down when.
 func (sc *scenario) finalOracles() {
 	got, gidx := sc.inputDelivered()
-	exp := append(append([]string{}, sc.exp...), sc.exp2...)
+	exp := append(append([]string{}, sc.exp...), sc.expMid...)
+	exp = append(exp, sc.exp2...)
 	m := match(got, exp)
 	if !sc.expire() {
 		for i, k := range m {
@@ -277,7 +373,9 @@ func (sc *scenario) finalOracles() {
 			for x, gi := range gidx {
 				if gi == j && m[x] >= 0 {
 					k := m[x]
-					if k < len(sc.exp) {
+					if k >= len(sc.exp) && k < len(sc.exp)+len(sc.expMid) {
+						// arrived while suspended: no tighter lower bound than the start of the run
+					} else if k < len(sc.exp) {
 						if k < len(sc.expChunk) {
 							sc.fmu.Lock()
 							if t, ok := sc.injectAt[sc.expChunk[k]]; ok {
